@@ -7,6 +7,7 @@ import (
 	"go/ast"
 	"go/token"
 	"go/types"
+	"golang.org/x/tools/go/types/typeutil"
 	"sort"
 	"strings"
 )
@@ -26,6 +27,7 @@ func ruleC19(c *Check) {
 	c.resetConstants("C19.2")
 	c.genesisCodecs("C19.3")
 	c.enumTables("C19.4")
+	c.enumJSONWriters("C19.4")
 	c.paramValidatorsAgree("C19.5")
 	c.keyGrammar("C19.1", map[string]bool{"0x05": true, "0x14": true, "0x15": true})
 	c.genesisCoverage("C19.5")
@@ -35,6 +37,7 @@ func ruleC19(c *Check) {
 	c.moduleWiring("C19.7", map[string]bool{"genesis": true})
 	c.paramSetExact("C19.8")
 	c.genesisImportsAll("C19.5")
+	c.genesisImportValidates("C19.6")
 	c.siblingBounds("C19.6")
 	c.earnRules("C19")
 	c.withdrawRules("C19")
@@ -991,6 +994,25 @@ func (c *Check) moduleWiring(rule string, which map[string]bool) {
 				}
 			}
 			c.req(n > 0 && ok, rule, unitConstruct(mb, "runs-end-blocker"), mb.Body.Pos(), "the module's EndBlock method runs the end blocker exactly once on every path")
+			// the end blocker runs on the block's own context: EndBlock derives no context with another gas meter, height, time
+			// or store (a finite gas meter turns a busy block into an out-of-gas panic that nothing recovers)
+			info := mb.Pkg.TypesInfo
+			derived := ""
+			ast.Inspect(mb.Body, func(nd ast.Node) bool {
+				if call, isCall := nd.(*ast.CallExpr); isCall {
+					if fn, isFn := typeutil.Callee(info, call).(*types.Func); isFn && fn.Pkg() != nil && strings.HasSuffix(fn.Pkg().Path(), "cosmos-sdk/types") {
+						if sig, _ := fn.Type().(*types.Signature); sig != nil && sig.Recv() != nil && typeName(sig.Recv().Type()) == "sdk.Context" && strings.HasPrefix(fn.Name(), "With") {
+							switch fn.Name() {
+							case "WithLogger", "WithEventManager":
+							default:
+								derived = fn.Name()
+							}
+						}
+					}
+				}
+				return true
+			})
+			c.req(derived == "", rule, unitConstruct(mb, "end-blocker-context"), mb.Body.Pos(), "the end blocker runs on the context EndBlock was given"+condStr(derived != "", ": EndBlock derives a context with sdk.Context."+derived))
 		}
 	}
 }
@@ -1306,6 +1328,48 @@ func (c *Check) genesisNotStricterThanMessages(rule string) {
 			badPos = lf.Pos
 		}
 	}
+	// definitions and bindings: the chain stores what the record validators accept and never re-checks a stored record when a
+	// parameter changes, so genesis validation rejects an element of those collections only through the element's own
+	// Validate() — a further test against today's parameters (a response time above the current maximum timeout) rejects
+	// states the chain reaches by a parameter change
+	for _, coll := range []string{"Definitions", "Bindings"} {
+		nEl := 0
+		var extra []string
+		var ePos token.Pos
+		for _, pa := range c.P.PathsOf(vg) {
+			if pa.Exit != ExitRevert {
+				continue
+			}
+			lf := lastFact(pa)
+			if lf == nil {
+				continue
+			}
+			var el *Term
+			lf.Fact.T.Walk(func(t *Term) bool {
+				if (t.Op == "elem" || t.Op == "idx") && len(t.A) >= 1 && strings.HasSuffix(stripConv(t.A[0]).Op, ".GenesisState."+coll) {
+					el = t
+				}
+				return true
+			})
+			if el == nil {
+				continue
+			}
+			nEl++
+			t := lf.Fact.T
+			okV := lf.Fact.Neg && t.Op == "ok" && len(t.A) == 1 && strings.HasSuffix(stripConv(t.A[0]).Op, ".Validate") && len(stripConv(t.A[0]).A) == 1 && stripAddr(stripConv(t.A[0]).A[0]).Eq(el)
+			if !okV {
+				extra = append(extra, strings.ReplaceAll(lf.Fact.String(), el.String(), "$E"))
+				ePos = lf.Pos
+			}
+		}
+		sort.Strings(extra)
+		p2 := vg.Body.Pos()
+		if len(extra) > 0 {
+			p2 = ePos
+		}
+		c.req(nEl >= 1 && len(extra) == 0, rule, vg.Name+"#"+coll+"-only-record-validators", p2,
+			fmt.Sprintf("genesis validation rejects an element of %s only through the element's own Validate() (%d rejecting exits)", coll, nEl)+condStr(len(extra) > 0, ": additional rejection under "+strings.Join(uniq(extra), " ; ")))
+	}
 	sort.Strings(bad)
 	c.Sites += n
 	pos := vg.Body.Pos()
@@ -1314,4 +1378,67 @@ func (c *Check) genesisNotStricterThanMessages(rule string) {
 	}
 	c.req(len(validators) >= 1 && len(bad) == 0, rule, vg.Name+"#withdraw-address-not-stricter", pos,
 		fmt.Sprintf("genesis validation rejects a withdrawal address only where the set-withdraw-address message's own validation does (%d rejecting exits on the value)", n)+condStr(len(bad) > 0, ": additional rejection under "+strings.Join(uniq(bad), " ; ")))
+}
+
+// genesisImportValidates: the import runs the genesis validation (the record validators of every collection) before it
+// stores anything: on every committed path of InitGenesis the validation of the very state being imported has succeeded.
+func (c *Check) genesisImportValidates(rule string) {
+	ig := c.mustFn(rule, "service.InitGenesis")
+	vg := c.typesName("ValidateGenesis")
+	if ig == nil {
+		return
+	}
+	stP := ""
+	for i, pr := range ig.Params {
+		if namedStruct(pr.Type()) == "GenesisState" {
+			stP = fmt.Sprintf("P%d", i)
+		}
+	}
+	ok := false
+	for _, fa := range c.closeFacts(c.P.SummaryOf(ig).SuccessFacts) {
+		if !fa.Neg && fa.T.Op == "ok" && len(fa.T.A) == 1 && fa.T.A[0].Op == vg && len(fa.T.A[0].A) == 1 && stripAddr(fa.T.A[0].A[0]).IsAt(stP) {
+			ok = true
+		}
+	}
+	c.req(ok && stP != "", rule, ig.Name+"#validates-imported-state", ig.Body.Pos(), "every committed path of the genesis import has validated the imported state with "+vg)
+}
+
+// enumJSONWriters (C19.4): the JSON form of the two state enumerations is what the readers registered for them accept: each
+// MarshalJSON of an enumeration type of package types encodes exactly the receiver's String() — the name whose table the
+// proto-JSON reader rule (enumTables) shows to be readable — and not a transformed copy of it (upper-cased, prefixed ...).
+func (c *Check) enumJSONWriters(rule string) {
+	n := 0
+	for _, f := range c.handFuncs("types") {
+		if f.Obj == nil || f.Obj.Name() != "MarshalJSON" || f.Recv == nil || f.Body == nil {
+			continue
+		}
+		bt, isBasic := types.Unalias(f.Recv.Type()).Underlying().(*types.Basic)
+		if !isBasic || bt.Info()&types.IsInteger == 0 {
+			continue
+		}
+		n++
+		recvT := typeName(f.Recv.Type())
+		ok := true
+		got := ""
+		for _, pa := range c.P.PathsOf(f) {
+			if len(pa.Ret) < 1 {
+				continue
+			}
+			r := stripConv(pa.Ret[0])
+			if r.Op == "res" && len(r.A) == 2 {
+				r = stripConv(r.A[1])
+			}
+			arg := (*Term)(nil)
+			if strings.HasSuffix(r.Op, "json.Marshal") && len(r.A) == 1 {
+				arg = stripConv(r.A[0])
+			}
+			want := recvT + ".String"
+			if arg == nil || !(arg.Op == want && len(arg.A) <= 1) {
+				ok = false
+				got = shortTerm(pa.Ret[0])
+			}
+		}
+		c.req(ok, rule, f.Name+"#writes-own-name", f.Body.Pos(), "the JSON form of the enumeration is json.Marshal(receiver.String())"+condStr(!ok, ": "+got))
+	}
+	c.req(n >= 2, rule, "enum-json-writers", token.NoPos, fmt.Sprintf("%d MarshalJSON methods of enumeration types", n))
 }
